@@ -172,11 +172,50 @@ def run(ctx, R, tier):
         R.check(len(re2) == 1 and len(ie) == 1 and pb.dominates(re2[0], ie[0]), 'B.C10.end-order', 'consumer',
                 'on the stopping path is_empty() is read before reached_end(): frames pushed between the two reads would be lost',
                 detail='reached_end() ≺ is_empty()')
+    err_ring(F, R)
     # producer order: push before reached_end.store(true)
     pushes = [x for x, t in runb.calls() if (callee_path(t) or '').endswith('rtrb::Producer::<T>::push')]
     stores = [x for x, t in runb.calls() if (callee_path(t) or '').endswith('::store') and 'reached_end' in describe(runb, t['args'][0])]
     R.check(len(pushes) == 1 and len(stores) == 1 and order_ok(runb, pushes, stores) and runb.dominates(pushes[0], stores[0]),
             'B.C10.end-order', 'producer', 'reached_end is raised before the last frame is pushed', detail='push ≺ reached_end.store(true)')
+
+
+def err_ring(F, R):
+    """The first error travels over one ring: producer to the scheduler, consumer to the handle, popped by pop_error."""
+    sp = None
+    for b in F.bodies:
+        if b.krate == 'kira' and b.path.endswith('StreamingSoundData::<Error>::split'):
+            sp = b
+    if not R.check(sp is not None, 'B.C10.err-ring', 'anchor', 'StreamingSoundData::split not found'):
+        return
+    rings = [(bb, t) for bb, t in sp.calls() if (callee_path(t) or '') == 'rtrb::RingBuffer::<T>::new'
+             and 'Error' in ' '.join(t['callee'].get('args', []))]
+    if not R.check(len(rings) == 1, 'B.C10.err-ring', 'ring', '%d error rings created in split()' % len(rings)):
+        return
+    dl = rings[0][1]['dest']['l']
+    from .c07 import half_of
+    dest_of = {dl: rings[0][0]}
+    prod_ok = cons_ok = False
+    for bb, t in sp.calls():
+        if (callee_path(t) or '').endswith('DecodeScheduler::<Error>::new'):
+            prod_ok = any((half_of(sp, a, dest_of) or (None, None))[1] == 0 for a in t['args'])
+    for bb, si, st in sp.stmts():
+        if st['k'] == 'assign' and st['rv']['k'] == 'agg' and st['rv'].get('adt', '').endswith('StreamingSoundHandle'):
+            for fn, op in zip(st['rv']['fields'], st['rv']['ops']):
+                if fn == 'error_consumer' and (half_of(sp, op, dest_of) or (None, None))[1] == 1:
+                    cons_ok = True
+    R.check(prod_ok and cons_ok, 'B.C10.err-ring', 'wiring', 'the error ring is not wired scheduler -> handle (producer ok: %s, consumer ok: %s)' % (prod_ok, cons_ok),
+            detail='RingBuffer::new(..): producer -> DecodeScheduler::new, consumer -> StreamingSoundHandle.error_consumer')
+    cap = describe(sp, rings[0][1]['args'][0])
+    R.check('ERROR_BUFFER_CAPACITY' in cap or cap.isdigit() and int(cap) >= 1, 'B.C10.err-ring', 'capacity', 'error ring capacity is %s' % cap, detail={'capacity': cap})
+    pe = None
+    for b in F.bodies:
+        if b.krate == 'kira' and b.path.endswith('StreamingSoundHandle::<Error>::pop_error'):
+            pe = b
+    if R.check(pe is not None, 'B.C10.err-ring', 'anchor:pop_error', 'pop_error not found'):
+        pops = [t for bb, t in pe.calls() if (callee_path(t) or '') == 'rtrb::Consumer::<T>::pop']
+        R.check(len(pops) == 1 and 'error_consumer' in describe(pe, pops[0]['args'][0], depth=4), 'B.C10.err-ring', 'pop_error',
+                'pop_error does not pop the error ring', detail='self.error_consumer.pop().ok()')
 
 
 def order_ok_once(b, A, B):
